@@ -132,16 +132,21 @@ CLAIMED = {
  "C13": {
   "text": "Partial. The model mirrors markup/line_parser.go function by function (markers, properties of every value "
           "type, escapes, replacement markers and processors, close-by-name matcher, character prefix, trimming and "
-          "clamping). Proved: text without markup is returned as it is (plain_text_identity), TextForAttribute returns "
-          "exactly [length] characters at [position] of the returned text, in characters. Not proved: the general "
-          "round trip parse(render d) = meaning d over marked-up documents. Correspondence: documents from a grammar, "
+          "clamping). Proved: the round trip for documents built from plain text, escaped brackets and open / close / "
+          "close-all markers with any nesting, overlap and repetition and multi-byte text (markup_document_roundtrip): "
+          "the text comes back, there is exactly one attribute per closed marker, its name is the marker's and "
+          "TextForAttribute returns exactly the text the marker enclosed - 'enclosed' being defined on the document "
+          "itself, without positions; a close marker without an open one is an error. Also: text without markup is "
+          "returned as it is (plain_text_identity), TextForAttribute returns exactly [length] characters at [position]. "
+          "Not proved: markers with properties, self-closing and replacement markers, the character prefix and trimmed "
+          "edge blanks inside that round trip. Correspondence: documents from a grammar, "
           "model vs implementation, and for structured documents the implementation vs the meaning the generator knows "
           "by construction (independent oracle).",
   "design_ref": "DESIGN.md section 5, C13",
   "note": "Axioms: the four stdlib axioms behind Flocq's reals (decimal property values). unicode.IsLetter/IsDigit "
           "tables are generated from the toolchain and cross-checked on every run; the two fixed regexps are "
           "hand-written matchers; strconv.ParseFloat/Atoi and fmt.Sprint are modelled.",
-  "technique": "Coq model + partial proofs; differential correspondence check with an independent document-meaning oracle",
+  "technique": "Coq proof of the marker round trip on the parser model + differential correspondence check with an independent document-meaning oracle",
  },
  "C14": {
   "text": "Theorem: ParseMarkup on a parser value in any state, after any history of lines (failing ones included), "
